@@ -32,7 +32,7 @@ def parseReqRes (ws : List String) : Option (RReply Ã— Option (List (BitVec 32 Ã
   let rowsOf (r : List String) : Option (List (BitVec 32 Ã— Int)) :=
     match r with
     | "rows" :: "?" :: _ => none
-    | "rows" :: _ :: rest => some (parseRows rest)
+    | "rows" :: _ :: rest => some (parseRows (rest.takeWhile (Â· != "key")))
     | _ => none
   match ws with
   | "reply" :: ip :: l :: rest =>
@@ -73,7 +73,18 @@ def step (st : St) (op res : String) : St Ã— List String :=
           | none => []
         let mon := RMon.step cfg st.bound (.req mac t0 obs stored)
         let monv : RVerdict := if rows.isNone then { mon.2 with c03 := true } else mon.2
-        let fails := (if monv.c02 then [] else [s!"FAIL C02 request from {mac} -> {fmtReply obs}"]) ++
+        -- the stored form of the hardware address: HardwareAddr.String() through sqlite's column affinity
+        let keyMsgs : List String :=
+          match (rest.dropWhile (Â· != "key")) with
+          | ["key", k] =>
+            if k == "?" || k == "none" then [] else
+            let want := sqliteAffinity (macString mac)
+            let got := (parseHex k).map (fun bs => String.ofList (bs.map Char.ofNat))
+            (if got == some want then [] else [s!"DIVERGE dom stored key: model={want} sqlite={got}"]) ++
+            (if mac.all (Â· < 256) && loadKeyConcrete mac != some mac then ["FAIL C03 the stored hardware address does not read back"] else []) ++
+            (if want != macString mac then ["br:rreq.key-rewritten-by-affinity"] else [])
+          | _ => []
+        let fails := keyMsgs ++ (if monv.c02 then [] else [s!"FAIL C02 request from {mac} -> {fmtReply obs}"]) ++
                      (if monv.c03 then [] else [s!"FAIL C03 stored expiry of {mac} is earlier than the lease promised"])
         let tryNow (now : Int) : Option (RState Ã— Bool) :=
           match st.s.handle mac now choice with
